@@ -461,6 +461,22 @@ func DefaultConfig() Config {
 	}
 }
 
+// jumpMarker in front of a scripted line: eleven minutes pass before it.
+const jumpMarker = "\x00+11m "
+
+func (g *Gen) popPending() Entry {
+	e := g.pending[0]
+	g.pending = g.pending[1:]
+	if strings.HasPrefix(e.Data, jumpMarker) {
+		// scripted: this line comes eleven minutes after the previous one
+		e.Data = strings.TrimPrefix(e.Data, jumpMarker)
+		if !g.opt.NoBigJumps {
+			g.nano += int64(11 * time.Minute)
+		}
+	}
+	return e
+}
+
 func (g *Gen) tick(t *rapid.T) {
 	if g.opt.BackwardsTime && coin(t, "clockbehind", 1, 12) {
 		// the entry was accepted by a leader whose clock is behind the previous leader's (nodes may
@@ -506,8 +522,7 @@ func (g *Gen) Next(t *rapid.T, w *World) Entry {
 	var e Entry
 	// scripted lines first (construction instead of rejection)
 	if len(g.pending) > 0 && coin(t, "script", 3, 4) {
-		e = g.pending[0]
-		g.pending = g.pending[1:]
+		e = g.popPending()
 		if s := w.session(e.Session); s != nil {
 			if s.Server && !strings.HasPrefix(e.Data, "NICK ") && !strings.HasPrefix(e.Data, "PING") {
 				e = Entry{} // role changed: not conforming any more
@@ -568,9 +583,7 @@ func (g *Gen) fresh(t *rapid.T, w *World, id uint64) Entry {
 	switch pickW(t, "entrykind", 80, wCreate, wDelete, wConfig, wMoD, wDead, wScenario) {
 	case 6:
 		if g.scenario(t, w) && len(g.pending) > 0 {
-			e := g.pending[0]
-			g.pending = g.pending[1:]
-			return e
+			return g.popPending()
 		}
 	case 1:
 		return g.create(t, w, id)
@@ -828,6 +841,17 @@ func (g *Gen) create(t *rapid.T, w *World, id uint64) Entry {
 			g.pending = append(g.pending, Entry{Kind: "irc", Session: id, Data: "NICK " + nick + " 1 1422134861 services localhost.net services.localhost.net 0 :" + nick + " Services"})
 		}
 	case 2: // nothing scripted: stays unregistered unless random lines register it
+		if coin(t, "idleunregistered", 1, 3) {
+			// a bridge connection that never registers but keeps pinging: unregistered sessions are
+			// closed by the first ordinary command that arrives more than ten minutes after creation
+			script := []Entry{}
+			if coin(t, "idlenick", 1, 2) {
+				script = append(script, Entry{Kind: "irc", Session: id, Data: "NICK " + g.genValidNick(t, w)})
+			}
+			script = append(script, Entry{Kind: "irc", Session: id, Data: jumpMarker + pick(t, "idlecmd", []string{"PING keepalive", "PING :x", "JOIN #a", "MOTD"})},
+				Entry{Kind: "irc", Session: id, Data: "PING again"})
+			g.pending = append(g.pending, script...)
+		}
 	}
 	return Entry{Kind: "create", Data: auth}
 }
@@ -941,11 +965,18 @@ func (g *Gen) banMask(t *rapid.T, w *World, n string) string {
 		return "*!*@*"
 	case 2:
 		// session reference, resolved against the remote address by the server
+		// in front of the reference: a wildcard, or characters whose case mapping changes their
+		// length in bytes (U+023A, U+023E grow from 2 to 3 bytes when lower-cased, U+212A and
+		// U+0130 shrink) — offsets computed on a case-folded copy do not fit the original
+		front := "*!*"
+		if coin(t, "casemaplen", 1, 4) {
+			front = strings.Repeat(pick(t, "casemapchar", []string{"Ⱥ", "Ⱦ", "K", "İ", "ȺȾ"}), rapid.IntRange(1, 24).Draw(t, "casemapn")) + "!*"
+		}
 		if len(w.Sessions) > 0 {
 			s := w.Sessions[rapid.IntRange(0, len(w.Sessions)-1).Draw(t, "bansess")]
-			return fmt.Sprintf("*!*@robust/0x%x", s.Id)
+			return fmt.Sprintf("%s@robust/0x%x", front, s.Id)
 		}
-		return "*!*@robust/0x1"
+		return front + "@robust/0x1"
 	case 3:
 		return "*!*@" + pick(t, "banaddr", addrPool[1:])
 	default:
